@@ -13,7 +13,7 @@ finite domain the property names: all arithmetic types, enum types, bit-field wi
 """
 import facts
 from facts import AnalysisBroken
-from eai import Interp, Obj, Ptr, Sym, SV, Terminal, Unsupported, StructVal, explore, UNINIT
+from eai import Interp, Obj, Ptr, Sym, SV, Terminal, Unsupported, StructVal, explore, UNINIT, read_cstr
 import cmodel
 from cmodel import World, ev, backend_models
 
@@ -499,11 +499,99 @@ def rule_decay(chk, prog, tier):
     r.exhaustive = True
 
 
+# ------------------------------------------------------------------ C05.d2 literal classification in primaryexpr
+
+def rule_literal_base(chk, prog, tier):
+    r = chk.rule('C05.d2', 'primaryexpr classifies a pp-number as floating or integer by its spelling, converts it in the base its prefix says, and tells inttype() "decimal" exactly for unprefixed constants (octal, hexadecimal and binary constants use the list that includes the unsigned types)',
+                 floor=40, oracle='C11 6.4.4.1p1-5, 6.4.4.2; C23 binary constants')
+    fn = prog.require_func('primaryexpr', 'expr.c')
+    import re as _re
+    CASES = []
+    for digits, base, off in (('123', 10, 0), ('9', 10, 0), ('0', 8, 0), ('017', 8, 0), ('0777', 8, 0), ('0x1F', 16, 0), ('0X1f', 16, 0), ('0xe', 16, 0), ('0x1e5', 16, 0),
+                              ('0b101', 2, 2), ('0B1', 2, 2), ('0b0', 2, 2), ('037777777777', 8, 0), ('0b11111111111111111111111111111111', 2, 2)):
+        for suf in ('', 'u', 'UL', 'll'):
+            CASES.append((digits + suf, ('int', base, off, int(base == 10), suf)))
+    for lit, ty in (('1.5', 'double'), ('1e5', 'double'), ('1E5', 'double'), ('.5', 'double'), ('0.5', 'double'), ('0e1', 'double'), ('00.5', 'double'), ('1.', 'double'),
+                    ('1.5f', 'float'), ('1.5F', 'float'), ('1e5f', 'float'), ('1.5l', 'ldouble'), ('1.5L', 'ldouble'), ('0x1p3', 'double'), ('0x1.8P1', 'double'),
+                    ('0x.8p0f', 'float'), ('0X1P-2L', 'ldouble')):
+        CASES.append((lit, ('flt', ty)))
+    for lit in ('1.5x', '1.5fl', '1.5ff', '0x1p3q'):
+        CASES.append((lit, ('error',)))
+    def pyfloatend(lit):
+        m = _re.match(r'^(0[xX][0-9a-fA-F]*\.?[0-9a-fA-F]*([pP][+-]?[0-9]+)?|[0-9]*\.?[0-9]*([eE][+-]?[0-9]+)?)', lit)
+        return m.end()
+    for lit, want in CASES:
+        def runner(it):
+            w = World(prog, it=it, target='x86_64-sysv')
+            tokobj = it.gobj('tok')
+            lo = it.mkstr(list(lit.encode()), 'lit'); lo.writable = True
+            tokobj.f[('kind',)] = ev(prog, 'TNUMBER'); tokobj.f[('lit',)] = Ptr(lo, (0,))
+            tokobj.f[('loc', 'file')] = None; tokobj.f[('loc', 'line')] = 1; tokobj.f[('loc', 'col')] = 1
+            def strpbrk(i2, a, e):
+                s_ = bytes(read_cstr(i2, a[0])); acc = bytes(read_cstr(i2, a[1]))
+                for k, ch in enumerate(s_):
+                    if ch in acc: return i2.padd(a[0], k)
+                return None
+            def strtoull(i2, a, e):
+                src, endp, base = a
+                off = src.path[-1]
+                txt = lit[off:]
+                t2 = txt
+                if base == 16 and t2[:2].lower() == '0x': t2 = t2[2:]; skip = 2
+                else: skip = 0
+                dig = '0123456789abcdef'[:base]
+                n = 0
+                while n < len(t2) and t2[n].lower() in dig: n += 1
+                if n == 0 and skip: skip = 1; v = 0     # "0x" followed by no digit: strtoull consumes the 0
+                else: v = int(t2[:n], base) if n else 0
+                i2.store_ptr(endp, i2.padd(src, skip + n)) if hasattr(i2, 'store_ptr') else i2.assign(endp.obj, endp.path, i2.padd(src, skip + n), None)
+                i2.event('strtoull', off, base, v)
+                return v % 2 ** 64
+            def strtod(i2, a, e):
+                src, endp = a
+                n = pyfloatend(lit)
+                i2.assign(endp.obj, endp.path, i2.padd(src, n), None)
+                i2.event('strtod', n)
+                return 1.0
+            def inttype(i2, a, e):
+                i2.event('inttype', a[0], a[1], bytes(read_cstr(i2, a[2])).decode())
+                return w.t('int')
+            it.models.update({'strpbrk': strpbrk, 'strtoull': strtoull, 'strtod': strtod, 'inttype': inttype, 'next': lambda i2, a, e: None,
+                              'xmalloc': lambda i2, a, e: Ptr(Obj('heap@%s' % e.get('line'), 'heap'), ()),
+                              'error': lambda i2, a, e: (_ for _ in ()).throw(Terminal('error', cmodel.fmt_of(i2, a, 1))),
+                              'fatal': lambda i2, a, e: (_ for _ in ()).throw(Terminal('fatal', cmodel.fmt_of(i2, a, 0)))})
+            e_ = it.call(fn, [Ptr(Obj('scope', 'heap'), ())])
+            u = {n: w.t(n) for n in ('int', 'float', 'double', 'ldouble')}
+            return name_of_type(u, it.load(e_.obj, e_.path + ('type',))), [x for x in it.events if x[0] in ('strtoull', 'strtod', 'inttype')]
+        runs = explore(prog, runner, {}, max_runs=4, on_unsupported='keep')
+        if len(runs) != 1 or runs[0].outcome == 'unsupported':
+            raise AnalysisBroken('primaryexpr(%s): %s' % (lit, runs[0].detail if runs else 'no run'))
+        run = runs[0]
+        key = 'literal-spelling:%s' % lit
+        where = 'expr.c:%s' % fn.get('line')
+        if want[0] == 'error':
+            r.instance(run.outcome == 'terminal:error', key, where, 'malformed floating suffix must be diagnosed, got %s' % (run.value if run.outcome == 'return' else run.outcome,)); continue
+        if run.outcome != 'return':
+            r.instance(False, key, where, 'valid constant rejected: %s %s' % (run.outcome, run.detail)); continue
+        tname, evs = run.value
+        if want[0] == 'flt':
+            ok = tname == want[1] and [x[0] for x in evs] == ['strtod']
+            r.instance(ok, key, where, 'expected a floating constant of type %s; got type %s via %s' % (want[1], tname, evs))
+        else:
+            _, base, off, dec, suf = want
+            digits = lit[:len(lit) - len(suf)] if suf else lit
+            value = int(digits[2:] if base in (2, 16) else digits, base)
+            ok = len(evs) == 2 and evs[0] == ('strtoull', off, base, value) and evs[1] == ('inttype', value, dec, suf)
+            r.instance(ok, key, where, 'expected conversion of the digits from offset %d in base %d (value %d) and inttype(value, decimal=%d, suffix %r); got %s' % (off, base, value, dec, suf, evs))
+    r.exhaustive = False
+
+
 def run(chk, tier):
     prog = facts.programs()['cproc-qbe']
     chk.guard('C05.a', lambda: rule_promote(chk, prog, tier))
     chk.guard('C05.b', lambda: rule_common(chk, prog, tier))
     chk.guard('C05.c', lambda: rule_binary_types(chk, prog, tier))
     chk.guard('C05.d', lambda: rule_literals(chk, prog, tier))
+    chk.guard('C05.d2', lambda: rule_literal_base(chk, prog, tier))
     chk.guard('C05.f', lambda: rule_descriptors(chk, prog, tier))
     chk.guard('C05.g', lambda: rule_decay(chk, prog, tier))
